@@ -154,7 +154,7 @@ def _rand_variant(rng, seq, lo, hi, kind):
 
 
 def random_spec(rng, want_cn=None, pseudogene=None, kinds=None, hostile=0.3, max_len=None,
-                gaps=None, strands=None, n_majors=None, silent_kinds=None, name="GENX"):
+                gaps=None, strands=None, n_majors=None, silent_kinds=None, name="GENX", structural=None):
     """Random consistent database.  Returns dict with keys: yml (the YAML dict), truth (dict)."""
     pname = name + "P"
     if pseudogene is None:
@@ -163,6 +163,12 @@ def random_spec(rng, want_cn=None, pseudogene=None, kinds=None, hostile=0.3, max
         want_cn = rng.random() < 0.7
     if want_cn and rng.random() < 0.85:
         pseudogene = True
+    # structural: None (any mixture) | "right_only" | "left_only" | "deletion_only" - the only kind of structural
+    # allele the database defines
+    if structural in ("right_only", "left_only"):
+        pseudogene = want_cn = True
+    elif structural == "deletion_only":
+        want_cn = True
     kinds = kinds or ["snp", "snp", "snp", "mnp", "del", "ins", "mnpdot", "delins"]
     n_exons = rng.randint(2, 4)
     # RefSeq layout (0-based, 5'->3'): up | [utr5] | e1 i1 e2 ... | [utr3] | down
@@ -393,11 +399,13 @@ def random_spec(rng, want_cn=None, pseudogene=None, kinds=None, hostile=0.3, max
     next_num = 40
     tandems = []
     if want_cn:
-        if pseudogene:
+        if pseudogene and structural != "deletion_only":
             breaks = [r for r in order if r not in ("up",)][1:-1]
             for _ in range(rng.choice([1, 1, 2, 3])):
                 brk = rng.choice(breaks)
                 left = rng.random() < 0.5
+                if structural in ("right_only", "left_only"):
+                    left = structural == "left_only"
                 an = f"{name}*{next_num}.001"
                 muts = [[pname, f"{brk}-" if left else rng.choice([f"{brk}+", brk])]]
                 if rng.random() < 0.35 and func_pool:
@@ -413,14 +421,16 @@ def random_spec(rng, want_cn=None, pseudogene=None, kinds=None, hostile=0.3, max
                 alleles[an] = {"label": f"{name}*{next_num}", "mutations": muts}
                 fusion_alleles[str(next_num)] = ("left" if left else "right", brk)
                 next_num += 1
-        if rng.random() < 0.8 or not pseudogene:
+        if structural in ("right_only", "left_only"):
+            pass
+        elif rng.random() < 0.8 or not pseudogene or structural == "deletion_only":
             alleles[f"{name}*{next_num}.001"] = {"label": f"{name}*{next_num}DEL",
                                                 "mutations": [[name, "deletion"]]}
             fusion_alleles[str(next_num)] = ("deletion", None)
             next_num += 1
         # hostile: a custom partial deletion that removes exactly the regions a fusion loses
         fl = [(k_, v_) for k_, v_ in fusion_alleles.items() if v_[0] in ("left", "right")]
-        if fl and rng.random() < hostile * 0.5:
+        if fl and rng.random() < hostile * 0.5 and not structural:
             k_, (kind_, brk_) = rng.choice(fl)
             idx = order.index(brk_)
             lost = order[:idx] if kind_ == "left" else order[idx:]
@@ -439,7 +449,7 @@ def random_spec(rng, want_cn=None, pseudogene=None, kinds=None, hostile=0.3, max
                     alleles[f"{name}*{next_num}.001"] = {"mutations": muts2}
                     fusion_alleles[str(next_num)] = ("custom", tuple(lost))
                     next_num += 1
-        if rng.random() < 0.2:
+        if rng.random() < 0.2 and not structural:
             k = rng.randint(1, n_exons - 1) if n_exons > 1 else 1
             alleles[f"{name}*{next_num}.001"] = {
                 "mutations": [[name, f"deletion:e{k},i{k}" if n_exons > k else f"deletion:e{k}"]]}
